@@ -322,6 +322,10 @@ func (k Keeper) UpdateTokenPairERC20(ctx sdk.Context, erc20Addr, newERC20Addr co
 		)
 	}
 
+	if k.IsERC20Registered(ctx, newERC20Addr) {
+		return types.TokenPair{}, sdkerrors.Wrapf(types.ErrTokenPairAlreadyExists, "token ERC20 contract already registered: %s", newERC20Addr.String())
+	}
+
 	// Update the metadata description with the new address
 	metadata.Description = types.CreateDenomDescription(newERC20Addr.String())
 	k.bankKeeper.SetDenomMetaData(ctx, metadata)
@@ -332,8 +336,8 @@ func (k Keeper) UpdateTokenPairERC20(ctx sdk.Context, erc20Addr, newERC20Addr co
 	newID := pair.GetID()
 	// Set the new pair
 	k.SetTokenPair(ctx, pair)
-	// Overwrite the value because id was changed
-	k.SetDenomMap(ctx, pair.Denoms[0], newID)
+	// Index every denomination again because DeleteTokenPair removed all of them and the id was changed
+	k.SetDenomsMap(ctx, pair.Denoms, newID)
 	// Add the new address
 	k.SetERC20Map(ctx, newERC20Addr, newID)
 	return pair, nil
